@@ -155,6 +155,15 @@ def gen_case(c, g):
                 ops.append(dict(op="prefrom", n=i, donor=c.rng.choice(donors)))
             elif light:
                 ops.append(dict(op="pre", n=i, ids=c.rng.sample(light, 1)))
+        elif k == "jobpath" and c.rng.random() < 0.4:
+            # two more entry points, tried on frozen configurations only (both must be refused there):
+            # the list handed out by the pre_tasks property, and copy_dependencies (sets the task mark)
+            fr = [a["n"] for a in desc["actions"] if a["a"] in ("seal", "submit")]
+            marked = [j for j in range(n) if desc["nodes"][j]["cls"] in ("TaskOut",) and j in submitted]
+            if fr and light and c.rng.random() < 0.6:
+                ops.append(dict(op="preappend", n=c.rng.choice(fr), ids=c.rng.sample(light, 1)))
+            elif fr:
+                ops.append(dict(op="copydeps", n=c.rng.choice(fr), other=c.rng.randrange(n)))
         elif k == "jobpath":
             if cls in TASKS:
                 ops.append(dict(op="jobpath", n=i))
@@ -179,8 +188,10 @@ def g_sop(o):
         return f"(SAssign {gnat(o['n'])} {gbytes(o['name'].encode())}%N {identgen.g_value(v)})"
     if k == "meta":
         return f"(SSetMeta {gnat(o['n'])} {gopt(o['flag'], gbool)})"
-    if k in ("pre", "prefrom"):
+    if k in ("pre", "prefrom", "preappend"):
         return f"(SAddPre {gnat(o['n'])} {glist(gnat(i) for i in o.get('ids', []))})"
+    if k == "copydeps":      # tried on sealed roots only, where it is refused and changes nothing: as an empty add_pretasks attempt
+        return f"(SAddPre {gnat(o['n'])} [])"
     if k == "resubmit":      # refused on a submitted (sealed) task and changes nothing: as an empty add_pretasks attempt
         return f"(SAddPre {gnat(o['n'])} [])"
     return {"seal": "SSeal", "raw": "SRaw", "full": "SFull"}[k] + " " + gnat(o["n"])
@@ -239,7 +250,7 @@ def oracle(c, case, r):
         k = o["op"]
         if k not in ("copyconfig", "clone"):
             c.count("op:" + k + ("" if k in ("full", "raw", "jobpath", "seal") else (":frozen" if o["n"] in frozen else ":free")))
-        if k in ("assign", "meta", "pre", "prefrom", "resubmit") and o["n"] in frozen and not a.startswith("rejected:"):
+        if k in ("assign", "meta", "pre", "prefrom", "resubmit", "preappend", "copydeps") and o["n"] in frozen and not a.startswith("rejected:"):
             c.violation(f"C14:attempt-accepted:{k}", f"a {k} attempt on a frozen configuration was not rejected",
                         dict(desc=case["desc"], ops=case["ops"], op=o, answer=a))
         if k in ("copyconfig", "clone"):
@@ -347,6 +358,16 @@ def run(c: Check):
                     "TD() with a: Param[A] = A(x=1), A holding a generated path: the identifier before submit() differs from "
                     "the one after (the generated value enters the comparison with the default)",
                     dict(desc=dict(nodes=[], actions=[]), ops=[], probe="harness/drive_cfgdefault.py", got=pr))
+    # directed probe: list / dict values of a frozen configuration modified in place (the containers themselves)
+    pr2 = run_impl("drive_c14inplace.py", {}, timeout=300)
+    c.count("probe:container-modified-in-place")
+    accepted = sorted(k for k, v in pr2.items() if v == "accepted")
+    if accepted or not pr2.get("content_identifier_same", True):
+        c.violation("C14:container-value-modified-in-place",
+                    "after submit(), bag.li.append(3) / bag.di['b'] = 2 / bag.lc.append(Leaf()) on a frozen configuration are "
+                    "accepted (the parameter property hands out the stored list / dict): the cached identifier and job "
+                    "directory stay while params.json is written from the modified values",
+                    dict(desc=dict(nodes=[], actions=[]), ops=[], probe="harness/drive_c14inplace.py", got=pr2))
     c.level_assumptions = [
         "SHA-256 is a parameter of the theorems (Gallina SHA-256 validated against hashlib by the correspondence)",
         "C14_frozen_identity is the acyclic special case; C14_coherent_under_edits / C14_sealed_identity_stable cover every graph (cycles included) from any state satisfying ginv, and ginv is evaluated on every exported state",
